@@ -123,6 +123,7 @@ def stepLine30 (d : D30) (line : String) : D30 × String :=
   | _ =>
     if !d.inCase then (d, "no-case")
     else match f with
+    | ["within", _] => if d.s.dead then (d, "skip") else (d, "ok")
     | ["wait", ms] =>
       if d.s.dead then (d, "skip")
       else ({ d with ck := { d.ck with now := d.ck.now + (ms.toInt?.getD 0) * 1000000 } }, "ok")
